@@ -289,7 +289,7 @@ func (e *FieldExpression) unwrapReference(ref *dtpb.Reference) *dtpb.String {
 			return nil
 		}
 		fieldName = strcase.ToCamel(fieldName)
-		if history := refid.GetHistory(); history != nil {
+		if history := refid.GetHistory(); history.GetValue() != "" { // (an allocated history without a value is no version)
 			return fhir.String(fmt.Sprintf("%v/%v/_history/%v", fieldName, refid.GetValue(), history.GetValue()))
 		}
 		return fhir.String(fmt.Sprintf("%v/%v", fieldName, refid.GetValue()))
